@@ -119,10 +119,11 @@ Section Spec.
                  else let '(r, f) := take_until p l' in (x :: r, f)
     end.
 
-  (* what epoch e shows: the announcement, then its updates up to and including
-     the first one at which the budget is reached; and whether that happened *)
+  (* what epoch e shows: the announcement, then the start of the main sampler's
+     iteration for this epoch, then its updates up to and including the first
+     one at which the budget is reached; and whether that happened *)
   Definition epoch_events (e : Z) (pn : list nat) : list event :=
-    SetEpoch e :: flat_map u_events (fst (take_until hit (epoch_updates e pn))).
+    SetEpoch e :: IterStart e :: flat_map u_events (fst (take_until hit (epoch_updates e pn))).
   Definition epoch_hits (e : Z) : bool :=
     let bs := epoch_batches e in existsb (fun j => hit_k (counters_at e bs j)) (seq 0 (length bs)).
 
